@@ -172,12 +172,11 @@ int flush_pubsub_msgs(void *data, const char *key, void *value) {
 
     const bool stopping_mod = key == NULL;
     
-    m_queue_t *flushed = m_queue_new(mem_dtor);
-    if (!flushed) {
-        M_WARN("Failed to create flushing queue.\n");
-    }
+    /* Only a RUNNING module gets its messages when ctx stops looping; all other cases: just drop them */
+    const bool deliver = !stopping_mod && m_mod_is(mod, M_MOD_RUNNING);
 
     bool poisonpilled = false;
+    size_t flushed = 0;
     while (mod->pubsub_fd[0] != -1 &&
         read(mod->pubsub_fd[0], &mm, sizeof(ps_priv_t *)) == sizeof(ps_priv_t *)) {
         /*
@@ -185,7 +184,7 @@ int flush_pubsub_msgs(void *data, const char *key, void *value) {
          * ie: we are stopping looping on the context.
          * Else, just free msg.
          */
-        if (!stopping_mod && m_mod_is(mod, M_MOD_RUNNING)) {
+        if (deliver) {
             if (mm->msg.system && mm->msg.topic && !strcmp(mm->msg.topic, M_PS_MOD_POISONPILL)) {
                 /*
                  * A poisonpill is not for the user: deliver what was sent before it,
@@ -197,16 +196,26 @@ int flush_pubsub_msgs(void *data, const char *key, void *value) {
             }
             M_DEBUG("Flushing enqueued pubsub message for module '%s'.\n", mod->name);
             evt_priv_t *msg = new_evt(mm->sub);
-            if (msg && flushed) {
+            if (msg) {
                 msg->evt.ps_evt = &mm->msg;
-                m_queue_enqueue(flushed, msg);
+                if (mm->sub) {
+                    msg->evt.userdata = mm->sub->userptr;
+                }
+                /* Events still held back by batching were sent earlier: append to them */
+                m_queue_enqueue(mod->batch.events, msg);
+                flushed++;
                 continue;
             }
         }
         M_DEBUG("Destroying enqueued pubsub message for module '%s'.\n", mod->name);
         m_mem_unref(mm);
     }
-    call_pubsub_cb(mod, flushed);
+    if (flushed > 0) {
+        /* Hand over everything that is pending, in send order, in one go */
+        m_queue_t *evts = mod->batch.events;
+        mod->batch.events = m_queue_new(mem_dtor);
+        call_pubsub_cb(mod, evts);
+    }
     if (poisonpilled && m_mod_is(mod, M_MOD_RUNNING)) {
         M_INFO("PoisonPilling '%s'.\n", mod->name);
         stop(mod, true);
